@@ -10,12 +10,19 @@ import (
 	"reflect"
 	"unsafe"
 
+	"github.com/sarchlab/akita/v4/mem/mem"
+	"github.com/sarchlab/akita/v4/mem/vm"
+	"github.com/sarchlab/akita/v4/mem/vm/mmu"
+	"github.com/sarchlab/akita/v4/noc/networking/pcie"
 	"github.com/sarchlab/akita/v4/sim"
 	"github.com/sarchlab/akita/v4/simulation"
 	"github.com/sarchlab/mgpusim/v4/amd/arch"
 	"github.com/sarchlab/mgpusim/v4/amd/driver"
 	"github.com/sarchlab/mgpusim/v4/amd/samples/runner/emusystem"
 	"github.com/sarchlab/mgpusim/v4/amd/samples/runner/timingconfig"
+	"github.com/sarchlab/mgpusim/v4/amd/samples/runner/timingconfig/gpubuilder"
+	"github.com/sarchlab/mgpusim/v4/amd/samples/runner/timingconfig/mi300a"
+	"github.com/sarchlab/mgpusim/v4/amd/samples/runner/timingconfig/r9nano"
 
 	"verif/dsim/choice"
 	"verif/dsim/gosched"
@@ -33,6 +40,18 @@ type Spec struct {
 	Permute   bool // same-time events in drawn order
 	Policy    gosched.Policy
 	Burst     int
+	// Mini, when set, assembles the timing platform from the GPU builders with
+	// these knobs instead of the shipped full-size configuration (wired exactly
+	// as timingconfig.Builder.Build does).
+	Mini *MiniKnobs
+}
+
+// MiniKnobs are the drawn parameters of a mini timing platform.
+type MiniKnobs struct {
+	NumSA, NumCUPerSA int
+	L2KB              int
+	MemBanks          int
+	Log2CacheLine     uint64
 }
 
 // Platform is an assembled system.
@@ -71,7 +90,9 @@ func Build(spec Spec, ch *choice.Source, scratch string) *Platform {
 	p.Sim = simulation.MakeBuilder().WithoutMonitoring().WithOutputFileName(scratch + "/akita_sim").Build()
 	injectEngine(p.Sim, p.Engine)
 
-	if spec.Timing {
+	if spec.Timing && spec.Mini != nil {
+		buildMiniTiming(p, spec)
+	} else if spec.Timing {
 		b := timingconfig.MakeBuilder().WithSimulation(p.Sim).WithNumGPUs(spec.NumGPUs).WithGPUType(spec.GPUType)
 		if spec.MagicCopy {
 			b = b.WithMagicMemoryCopy()
@@ -95,3 +116,79 @@ func (s Spec) Describe() string {
 }
 
 func driverYieldOff() { driver.VerifYield = nil }
+
+// buildMiniTiming wires a timing platform the way timingconfig.Builder.Build
+// does, from the public GPU builders with reduced sizes.
+func buildMiniTiming(p *Platform, spec Spec) {
+	s := p.Sim
+	eng := s.GetEngine()
+	const gpuMem = 4 * mem.GB
+	const log2Page = 12
+	k := spec.Mini
+	storage := mem.NewStorage(uint64(spec.NumGPUs)*gpuMem + gpuMem)
+	pageTable := vm.NewPageTable(log2Page)
+	mmuComp := mmu.MakeBuilder().WithEngine(eng).WithFreq(1 * sim.GHz).WithPageWalkingLatency(100).
+		WithLog2PageSize(log2Page).WithPageTable(pageTable).Build("MMU")
+	s.RegisterComponent(mmuComp)
+	db := driver.MakeBuilder()
+	if spec.MagicCopy {
+		db = db.WithMagicMemoryCopyMiddleware()
+	}
+	d2h, h2d, swLat := 300, 500, 140
+	if spec.GPUType == "mi300a" {
+		d2h, h2d, swLat = 150, 250, 15
+	}
+	drv := db.WithEngine(eng).WithPageTable(pageTable).WithLog2PageSize(log2Page).WithGlobalStorage(storage).
+		WithD2HCycles(d2h).WithH2DCycles(h2d).Build("Driver")
+	s.RegisterComponent(drv)
+
+	rdmaMapper := new(mem.BankedAddressPortMapper)
+	rdmaMapper.BankSize = gpuMem
+	rdmaMapper.LowModules = append(rdmaMapper.LowModules, sim.RemotePort("CPU"))
+
+	var gb gpubuilder.GPUBuilder
+	if spec.GPUType == "mi300a" {
+		b := mi300a.MakeBuilder().WithSimulation(s).WithMMU(mmuComp).WithLog2PageSize(log2Page).WithGlobalStorage(storage).
+			WithNumShaderArray(k.NumSA).WithNumCUPerShaderArray(k.NumCUPerSA)
+		if k.L2KB > 0 {
+			b = b.WithL2CacheSize(uint64(k.L2KB) * mem.KB)
+		}
+		if k.MemBanks > 0 {
+			b = b.WithNumMemoryBank(k.MemBanks)
+		}
+		gb = b
+	} else {
+		b := r9nano.MakeBuilder().WithSimulation(s).WithMMU(mmuComp).WithLog2PageSize(log2Page).WithGlobalStorage(storage).
+			WithNumShaderArray(k.NumSA).WithNumCUPerShaderArray(k.NumCUPerSA)
+		if k.L2KB > 0 {
+			b = b.WithL2CacheSize(uint64(k.L2KB) * mem.KB)
+		}
+		if k.MemBanks > 0 {
+			b = b.WithNumMemoryBank(k.MemBanks)
+		}
+		gb = b
+	}
+
+	conn := pcie.NewConnector().WithEngine(eng).WithVersion(4, 16).WithSwitchLatency(swLat)
+	conn.CreateNetwork("PCIe")
+	root := conn.AddRootComplex([]sim.Port{
+		drv.GetPortByName("GPU"), drv.GetPortByName("MMU"),
+		mmuComp.GetPortByName("Migration"), mmuComp.GetPortByName("Top"),
+	})
+	mmuComp.MigrationServiceProvider = drv.GetPortByName("MMU").AsRemote()
+
+	sw := root
+	for i := 1; i <= spec.NumGPUs; i++ {
+		if i%2 == 1 {
+			sw = conn.AddSwitch(root)
+		}
+		gpu := gb.WithGPUID(uint64(i)).WithMemAddrOffset(uint64(i) * gpuMem).WithRDMAAddressMapper(rdmaMapper).
+			Build(fmt.Sprintf("GPU[%d]", i))
+		drv.RegisterGPU(gpu.GetPortByName("CommandProcessor"), driver.DeviceProperties{
+			CUCount: k.NumSA * k.NumCUPerSA, DRAMSize: gpuMem,
+		})
+		rdmaMapper.LowModules = append(rdmaMapper.LowModules, gpu.GetPortByName("RDMAData").AsRemote())
+		conn.PlugInDevice(sw, gpu.Ports())
+	}
+	conn.EstablishRoute()
+}
